@@ -56,6 +56,12 @@ type dtConfig struct {
 	Preset    map[string]constant.Value
 	PresetNil map[string]bool
 	MaxPaths  int
+	// Keep: library callees that must stay opaque calls (their call is an effect / a key the rule's specification
+	// names). Every other unexported, loop-free helper of the library is inlined into the path, so that a block of the
+	// analysed function that was moved into a helper reads exactly as it did in place.
+	Keep func(callee *ssa.Function) bool
+	// NoInline switches helper inlining off altogether.
+	NoInline bool
 }
 
 type dtWalker struct {
@@ -73,12 +79,37 @@ type dtState struct {
 	path    *dtPath
 	visited map[*ssa.BasicBlock]bool
 	alias   map[ssa.Value]ssa.Value // boolean phi -> the value of the edge taken (so that evalCond can look through `a && b` built as a value)
+	frames  []dtFrame               // inlined calls in progress
+	tuples  map[ssa.Value][]dtRes   // results of inlined multi-result calls, read by Extract
+}
+
+// dtFrame: where to resume when the helper being inlined returns.
+type dtFrame struct {
+	call    *ssa.Call
+	block   *ssa.BasicBlock
+	idx     int
+	visited map[*ssa.BasicBlock]bool
+}
+
+type dtRes struct {
+	key string
+	c   constant.Value
 }
 
 func (s *dtState) clone() *dtState {
-	n := &dtState{env: map[ssa.Value]string{}, consts: map[ssa.Value]constant.Value{}, store: map[string]string{}, storeC: map[string]constant.Value{}, visited: map[*ssa.BasicBlock]bool{}, alias: map[ssa.Value]ssa.Value{}}
+	n := &dtState{env: map[ssa.Value]string{}, consts: map[ssa.Value]constant.Value{}, store: map[string]string{}, storeC: map[string]constant.Value{}, visited: map[*ssa.BasicBlock]bool{}, alias: map[ssa.Value]ssa.Value{}, tuples: map[ssa.Value][]dtRes{}}
 	for k, v := range s.alias {
 		n.alias[k] = v
+	}
+	for k, v := range s.tuples {
+		n.tuples[k] = v
+	}
+	for _, f := range s.frames {
+		vis := map[*ssa.BasicBlock]bool{}
+		for k, v := range f.visited {
+			vis[k] = v
+		}
+		n.frames = append(n.frames, dtFrame{call: f.call, block: f.block, idx: f.idx, visited: vis})
 	}
 	for k, v := range s.env {
 		n.env[k] = v
@@ -119,7 +150,7 @@ func EnumeratePaths(c *Ctx, fn *ssa.Function, cfg *dtConfig) []*dtPath {
 		cfg.MaxPaths = 4096
 	}
 	w := &dtWalker{c: c, fn: fn, cfg: cfg}
-	st := &dtState{env: map[ssa.Value]string{}, consts: map[ssa.Value]constant.Value{}, store: map[string]string{}, storeC: map[string]constant.Value{}, visited: map[*ssa.BasicBlock]bool{}, alias: map[ssa.Value]ssa.Value{},
+	st := &dtState{env: map[ssa.Value]string{}, consts: map[ssa.Value]constant.Value{}, store: map[string]string{}, storeC: map[string]constant.Value{}, visited: map[*ssa.BasicBlock]bool{}, alias: map[ssa.Value]ssa.Value{}, tuples: map[ssa.Value][]dtRes{},
 		path: &dtPath{Assume: map[string]string{}, know: map[string]*dtKnow{}, Locals: map[string]string{}}}
 	for k, v := range cfg.Preset {
 		vv := v
@@ -197,7 +228,13 @@ func (w *dtWalker) walk(st *dtState, b *ssa.BasicBlock, pred *ssa.BasicBlock) {
 		return
 	}
 	st.visited[b] = true
-	for _, in := range b.Instrs {
+	w.walkFrom(st, b, pred, 0)
+}
+
+// walkFrom executes b from instruction `start` on (start > 0: resuming after an inlined call).
+func (w *dtWalker) walkFrom(st *dtState, b *ssa.BasicBlock, pred *ssa.BasicBlock, start int) {
+	for i := start; i < len(b.Instrs); i++ {
+		in := b.Instrs[i]
 		switch x := in.(type) {
 		case *ssa.Phi:
 			for i, p := range b.Preds {
@@ -223,6 +260,10 @@ func (w *dtWalker) walk(st *dtState, b *ssa.BasicBlock, pred *ssa.BasicBlock) {
 			w.walk(st, b.Succs[0], b)
 			return
 		case *ssa.Return:
+			if len(st.frames) > 0 {
+				w.leave(st, x)
+				return
+			}
 			// a boolean result that is an expression over keyed values (`return !(a && b)`): decide it like a branch
 			if len(x.Results) == 1 {
 				if bt, ok := x.Results[0].Type().Underlying().(*types.Basic); ok && bt.Kind() == types.Bool {
@@ -258,9 +299,215 @@ func (w *dtWalker) walk(st *dtState, b *ssa.BasicBlock, pred *ssa.BasicBlock) {
 			st.path.Returns = append(st.path.Returns, "panic")
 			w.finish(st)
 			return
+		case *ssa.Call:
+			if w.inlinable(st, x) {
+				w.enter(st, x, b, i+1)
+				return
+			}
+			w.exec(st, in)
 		default:
 			w.exec(st, in)
 		}
+	}
+}
+
+// inlinable: an unexported, loop-free helper of the library that the rule did not ask to keep opaque.
+func (w *dtWalker) inlinable(st *dtState, call *ssa.Call) bool {
+	if w.cfg.NoInline {
+		return false
+	}
+	callee := call.Call.StaticCallee()
+	if callee == nil || callee == w.fn || callee.Pkg == nil || callee.Parent() != nil || len(callee.Blocks) == 0 || len(callee.Blocks) > 80 {
+		return false
+	}
+	if !isLibPkgPath(callee.Pkg.Pkg.Path()) || callee.Object() == nil || callee.Object().Exported() {
+		return false
+	}
+	if len(st.frames) >= 3 {
+		return false
+	}
+	for _, f := range st.frames {
+		if f.call.Call.StaticCallee() == callee {
+			return false
+		}
+	}
+	if (w.cfg.IsAtomCall != nil && w.cfg.IsAtomCall(call)) || (w.cfg.Keep != nil && w.cfg.Keep(callee)) {
+		return false
+	}
+	if w.cfg.ConstSetMember != nil && callee == w.cfg.ConstSetMember {
+		return false
+	}
+	if len(callee.Params) != len(call.Call.Args) {
+		return false
+	}
+	return !hasBackEdge(callee)
+}
+
+// atomsExcept: every call is an opaque atom, except calls to unexported functions of the library that the rule's
+// specification does not name (those are helpers a block was moved into, and are inlined).
+func atomsExcept(specNames ...string) func(call *ssa.Call) bool {
+	return func(call *ssa.Call) bool {
+		sc := call.Call.StaticCallee()
+		if sc == nil || sc.Pkg == nil || sc.Object() == nil || sc.Object().Exported() || !isLibPkgPath(sc.Pkg.Pkg.Path()) {
+			return true
+		}
+		for _, n := range specNames {
+			if sc.Name() == n {
+				return true
+			}
+		}
+		return false
+	}
+}
+
+var backEdgeCache = map[*ssa.Function]bool{}
+
+func hasBackEdge(fn *ssa.Function) bool {
+	if v, ok := backEdgeCache[fn]; ok {
+		return v
+	}
+	res := false
+	for _, b := range fn.Blocks {
+		for _, s := range b.Succs {
+			if s.Dominates(b) {
+				res = true
+			}
+		}
+		// sync.Once bodies, goroutines and defers are not modelled across a call boundary
+		for _, in := range b.Instrs {
+			switch in.(type) {
+			case *ssa.Go, *ssa.Defer, *ssa.Select:
+				res = true
+			}
+		}
+	}
+	backEdgeCache[fn] = res
+	return res
+}
+
+// enter binds the helper's parameters to the caller's argument keys and walks its body; leave resumes the caller.
+func (w *dtWalker) enter(st *dtState, call *ssa.Call, b *ssa.BasicBlock, resume int) {
+	callee := call.Call.StaticCallee()
+	for i, p := range callee.Params {
+		a := call.Call.Args[i]
+		delete(st.consts, p)
+		delete(st.alias, p)
+		if cv, ok := w.constOfVal(st, a); ok {
+			st.consts[p] = cv
+			st.env[p] = cv.ExactString()
+			continue
+		}
+		if bt, isB := p.Type().Underlying().(*types.Basic); isB && bt.Kind() == types.Bool {
+			st.alias[p] = a
+		}
+		if isNilConst(a) {
+			st.env[p] = "nil"
+		} else if k := w.keyOf(st, a); k != "" {
+			st.env[p] = k
+		} else {
+			st.env[p] = "?"
+		}
+	}
+	st.frames = append(st.frames, dtFrame{call: call, block: b, idx: resume, visited: st.visited})
+	st.visited = map[*ssa.BasicBlock]bool{callee.Blocks[0]: true}
+	w.walkFrom(st, callee.Blocks[0], nil, 0)
+}
+
+func (w *dtWalker) leave(st *dtState, ret *ssa.Return) {
+	fr := st.frames[len(st.frames)-1]
+	resume := func(s *dtState) {
+		s.frames = s.frames[:len(s.frames)-1]
+		s.visited = fr.visited
+		w.walkFrom(s, fr.block, nil, fr.idx)
+	}
+	opaque := func(s *dtState) string {
+		// the key the call would have had, had it not been inlined
+		name := w.calleeName(fr.call)
+		var args []string
+		for _, a := range fr.call.Call.Args {
+			k := w.keyOf(s, a)
+			if cv, ok := w.constOfVal(s, a); ok {
+				k = cv.ExactString()
+			}
+			if k == "" {
+				k = "?"
+			}
+			args = append(args, k)
+		}
+		return name + "(" + strings.Join(args, ",") + ")"
+	}
+	delete(st.consts, fr.call)
+	delete(st.env, fr.call)
+	delete(st.alias, fr.call)
+	delete(st.tuples, fr.call)
+	switch len(ret.Results) {
+	case 0:
+		resume(st)
+	case 1:
+		rv := ret.Results[0]
+		if cv, ok := w.constOfVal(st, rv); ok {
+			st.consts[fr.call] = cv
+			st.env[fr.call] = cv.ExactString()
+			resume(st)
+			return
+		}
+		if bt, ok := rv.Type().Underlying().(*types.Basic); ok && bt.Kind() == types.Bool {
+			res, lit, kind, cval := w.evalCond(st, rv)
+			switch res {
+			case "true", "false":
+				st.consts[fr.call] = constant.MakeBool(res == "true")
+				st.env[fr.call] = res
+				resume(st)
+				return
+			case "fork", "forkneg":
+				for _, truth := range []bool{true, false} {
+					n := st.clone()
+					w.assume(n, lit, kind, cval, truth)
+					val := truth
+					if res == "forkneg" {
+						val = !truth
+					}
+					n.consts[fr.call] = constant.MakeBool(val)
+					n.env[fr.call] = fmt.Sprint(val)
+					// the clone owns a copy of the frame's visited set
+					nfr := n.frames[len(n.frames)-1]
+					n.frames = n.frames[:len(n.frames)-1]
+					n.visited = nfr.visited
+					w.walkFrom(n, nfr.block, nil, nfr.idx)
+				}
+				return
+			}
+		}
+		switch {
+		case isNilConst(rv):
+			st.env[fr.call] = "nil"
+		default:
+			if k := w.keyOf(st, rv); k != "" && k != "?" {
+				st.env[fr.call] = k
+			} else {
+				st.env[fr.call] = opaque(st)
+			}
+		}
+		resume(st)
+	default:
+		var rs []dtRes
+		base := opaque(st)
+		for i, rv := range ret.Results {
+			switch {
+			case isNilConst(rv):
+				rs = append(rs, dtRes{key: "nil"})
+			default:
+				if cv, ok := w.constOfVal(st, rv); ok {
+					rs = append(rs, dtRes{key: cv.ExactString(), c: cv})
+				} else if k := w.keyOf(st, rv); k != "" && k != "?" {
+					rs = append(rs, dtRes{key: k})
+				} else {
+					rs = append(rs, dtRes{key: fmt.Sprintf("%s#%d", base, i)})
+				}
+			}
+		}
+		st.tuples[fr.call] = rs
+		resume(st)
 	}
 }
 
@@ -465,6 +712,14 @@ func (w *dtWalker) exec(st *dtState, in ssa.Instruction) {
 			st.env[x] = strings.TrimPrefix(k, "&") + "[" + lo + ":" + hi + "]"
 		}
 	case *ssa.Extract:
+		if rs, ok := st.tuples[x.Tuple]; ok && x.Index < len(rs) {
+			delete(st.consts, x)
+			st.env[x] = rs[x.Index].key
+			if rs[x.Index].c != nil {
+				st.consts[x] = rs[x.Index].c
+			}
+			return
+		}
 		if k := w.keyOf(st, x.Tuple); k != "" {
 			st.env[x] = fmt.Sprintf("%s#%d", k, x.Index)
 		}
@@ -879,6 +1134,27 @@ func (w *dtWalker) evalCond(st *dtState, cond ssa.Value) (string, string, string
 				key := w.keyOf(st, x)
 				if key == "" {
 					return "", "", "", nil
+				}
+				// values whose nil-ness is known from how they were built on this path: a nil handed through an inlined
+				// helper, a slice literal, a made slice, a function value, the address of a local
+				known := ""
+				switch {
+				case key == "nil":
+					known = "nil"
+				case strings.HasPrefix(key, "{"), strings.HasPrefix(key, "make["), strings.HasPrefix(key, "func:"), strings.HasPrefix(key, "local:complit"), strings.HasPrefix(key, "&local:"):
+					known = "non-nil"
+				case strings.HasPrefix(key, "fmt.Errorf("), strings.HasPrefix(key, "errors.New("):
+					known = "non-nil" // the error constructors never return nil
+				}
+				if known != "" {
+					r := known == "nil"
+					if bo.Op == token.NEQ {
+						r = !r
+					}
+					if neg {
+						r = !r
+					}
+					return fmt.Sprint(r), "", "", nil
 				}
 				if kn := st.path.know[key]; kn != nil && kn.isNil != nil {
 					r := *kn.isNil
